@@ -120,7 +120,13 @@ def runConstOp (op : String) (attrs : Json) (ins : List (Option DT)) : Answer :=
             let out := DT.ofFloat tgt (f.map g)
             { model := { status := "ok", outs := [some out] }, spec := { domain := "must", outs := some [some out] }, tags := ["float-float"] }
           else
-            let out := DT.mk tgt (f.map fun x => wrap tgt x.toInt64.toInt) none
+            -- Go: float -> unsigned is exact for every value in [0, 2^64); negative values are implementation-defined
+            let uns := tgt == .u8 || tgt == .u16 || tgt == .u32 || tgt == .u64
+            let conv (x : Float) : Int := if uns && x ≥ 9223372036854775808.0 then (x.toUInt64.toNat : Int) else x.toInt64.toInt
+            let out := DT.mk tgt (f.map fun x => wrap tgt (conv x)) none
+            if uns && f.data.any (· < 0.0) then
+              { model := { status := "unmodelled" }, spec := { domain := "unspecified" }, tags := ["float-int", "negative-to-unsigned"] }
+            else
             { model := { status := "ok", outs := [some out] }, spec := { domain := "must", outs := some [some out] }, tags := ["float-int"] }
       | none =>
         let model : Outcome := match castOp convInt X.dt to X.t with
